@@ -12,10 +12,10 @@ def ob(name, src, entry, fns, what, props=("C08", "C12"), **kw):
 OBLIGATIONS = []
 for vari, nm in ((0, "argon2id"), (1, "argon2i")):
     OBLIGATIONS += [
-        ob("c08.f.%s.raw" % nm, "harness/pwhash_wrap.c", "hf_raw", ["crypto_pwhash_%s" % nm], "raw API: every out-of-range parameter refused with -1 / errno without invoking the core; in-range request forwarded with (t, m/1024, 1 lane, 16-byte salt)", defs=["-DVARI=%d" % vari],
+        ob("c08.f.%s.raw" % nm, "harness/pwhash_wrap.c", "hf_raw", ["crypto_pwhash_%s" % nm], "raw API: every out-of-range parameter refused with -1 / errno without invoking the core; in-range request forwarded with (t, m/1024, 1 lane, 16-byte salt); a core error (e.g. allocation failure) is reported as -1", defs=["-DVARI=%d" % vari], props=("C08", "C20", "C12"),
            bound="values: outlen <= 128 (the upper output bound 2^32-1 needs a 4 GiB buffer and is not exercised)"),
-        ob("c08.f.%s.str" % nm, "harness/pwhash_wrap.c", "hf_str", ["crypto_pwhash_%s_str" % nm], "string API: limits; 16 random salt bytes; 32-byte tag; 128-byte output", defs=["-DVARI=%d" % vari], props=("C08", "C18", "C12")),
-        ob("c08.f.%s.str_verify" % nm, "harness/pwhash_wrap.c", "hf_str_verify", ["crypto_pwhash_%s_str_verify" % nm], "str_verify returns 0 exactly when the core reports a match", defs=["-DVARI=%d" % vari]),
+        ob("c08.f.%s.str" % nm, "harness/pwhash_wrap.c", "hf_str", ["crypto_pwhash_%s_str" % nm], "string API: limits; 16 random salt bytes; 32-byte tag; 128-byte output; core error => -1", defs=["-DVARI=%d" % vari], props=("C08", "C18", "C20", "C12")),
+        ob("c08.f.%s.str_verify" % nm, "harness/pwhash_wrap.c", "hf_str_verify", ["crypto_pwhash_%s_str_verify" % nm], "str_verify returns 0 exactly when the core reports a match (any core error, e.g. allocation failure => -1)", defs=["-DVARI=%d" % vari], props=("C08", "C20", "C12")),
     ]
 OBLIGATIONS += [
     ob("c08.f.needs_rehash", "harness/pwhash_wrap.c", "hf_needs_rehash", ["crypto_pwhash_argon2i_str_needs_rehash", "crypto_pwhash_argon2id_str_needs_rehash", "_needs_rehash"],
